@@ -624,10 +624,10 @@ def angvec2r(theta, v, unit='rad'):
     if not np.isscalar(theta) or not base.isvector(v, 3):
         raise ValueError("Arguments must be theta and vector")
 
+    theta = base.getunit(theta, unit)
+
     if np.linalg.norm(v) < 10 * _eps:
         return np.eye(3)
-
-    theta = base.getunit(theta, unit)
 
     # Rodrigue's equation
 
